@@ -2,4 +2,149 @@
 import MelModel.ApplyTx
 import MelModel.Lemmas.Counts
 namespace Mel
+open Mel.Gen
+namespace Mint
+
+theorem bind_ok_inv {α β} {x : Outcome α} {f : α → Outcome β} {b : β}
+    (h : x.bind f = .ok b) : ∃ a, x = .ok a ∧ f a = .ok b := by
+  cases x with
+  | ok a => exact ⟨a, rfl, h⟩
+  | reject e => simp [Outcome.bind] at h
+  | crash c => simp [Outcome.bind] at h
+
+/-- successful `computeDoscmintSpeed` -/
+theorem computeDoscmintSpeed_ok {t : Bool} {d sh ch r : Nat}
+    (h : computeDoscmintSpeed t d sh ch = .ok r) :
+    d < 128 ∧ ch < sh ∧ r = (if t then 100 else 1) * 2 ^ d / (sh - ch) := by
+  unfold computeDoscmintSpeed at h
+  split at h
+  · cases h
+  split at h
+  · cases h
+  split at h
+  · cases h
+  simp only at h
+  by_cases hv : (if t = true then TIP910_SPEED_FACTOR else 1) * 2 ^ d > U128_MAX
+  · rw [if_pos hv] at h; cases h
+  rw [if_neg hv] at h
+  injection h with h
+  refine ⟨by omega, by omega, ?_⟩
+  rw [← h]; simp [TIP910_SPEED_FACTOR]
+
+/-- successful `calculateReward` -/
+theorem calculateReward_ok {ms ds d r : Nat} {t : Bool}
+    (h : calculateReward ms ds d t = .ok r) :
+    r = min ((if t then min (2 ^ d * 100) U128_MAX else 2 ^ d) * ms * 1000000 / (ds ^ 2 * 2880)) U128_MAX := by
+  unfold calculateReward at h
+  split at h
+  · cases h
+  simp only at h
+  split at h
+  · cases h
+  injection h with h
+  rw [← h]
+  simp only [satU128, satMul128, TIP910_WORK_FACTOR, MICRO_CONVERTER, REWARD_DIVISOR]
+
+/-- the step of the DOSC-speed fold of `applyBatch` -/
+def speedStep (env : Env) (s : State) (rel : Relevant) : Nat → Tx → Outcome Nat :=
+  fun speed tx =>
+    if tx.kind = .doscMint then (validateDoscmint env s rel tx).bind fun sp => .ok (max speed sp)
+    else .ok speed
+
+theorem speedFold_spec (env : Env) (s : State) (rel : Relevant) :
+    ∀ (txs : List Tx) (sp0 r : Nat), Outcome.foldlM' (speedStep env s rel) sp0 txs = .ok r →
+      sp0 ≤ r ∧
+      (∀ tx ∈ txs, tx.kind = .doscMint → ∃ sp, validateDoscmint env s rel tx = .ok sp ∧ sp ≤ r) ∧
+      (r = sp0 ∨ ∃ tx ∈ txs, tx.kind = .doscMint ∧ validateDoscmint env s rel tx = .ok r) ∧
+      ((∀ tx ∈ txs, tx.kind ≠ .doscMint) → r = sp0) := by
+  intro txs
+  induction txs with
+  | nil =>
+    intro sp0 r h
+    simp only [Outcome.foldlM'] at h
+    injection h with h
+    subst h
+    simp
+  | cons tx txs ih =>
+    intro sp0 r h
+    simp only [Outcome.foldlM'] at h
+    cases hstep : speedStep env s rel sp0 tx with
+    | reject e => rw [hstep] at h; cases h
+    | crash c => rw [hstep] at h; cases h
+    | ok sp1 =>
+      rw [hstep] at h
+      simp only at h
+      obtain ⟨h1, h2, h3, h4⟩ := ih sp1 r h
+      unfold speedStep at hstep
+      by_cases hk : tx.kind = .doscMint
+      · rw [if_pos hk] at hstep
+        obtain ⟨sp, hv, hsp⟩ := bind_ok_inv hstep
+        injection hsp with hsp
+        have hle0 : sp0 ≤ sp1 := by omega
+        have hle1 : sp ≤ sp1 := by omega
+        refine ⟨by omega, ?_, ?_, ?_⟩
+        · intro tx' hmem hk'
+          rcases List.mem_cons.mp hmem with rfl | hmem
+          · exact ⟨sp, hv, by omega⟩
+          · exact h2 tx' hmem hk'
+        · rcases h3 with h3 | ⟨tx', hmem, hk', hv'⟩
+          · by_cases hc : sp ≤ sp0
+            · left; omega
+            · right
+              refine ⟨tx, List.mem_cons_self, hk, ?_⟩
+              have : r = sp := by omega
+              rw [this]; exact hv
+          · right; exact ⟨tx', List.mem_cons_of_mem _ hmem, hk', hv'⟩
+        · intro hall
+          exact absurd hk (hall tx List.mem_cons_self)
+      · rw [if_neg hk] at hstep
+        injection hstep with hstep
+        subst hstep
+        refine ⟨h1, ?_, ?_, ?_⟩
+        · intro tx' hmem hk'
+          rcases List.mem_cons.mp hmem with rfl | hmem
+          · exact absurd hk' hk
+          · exact h2 tx' hmem hk'
+        · rcases h3 with h3 | ⟨tx', hmem, hk', hv'⟩
+          · left; exact h3
+          · right; exact ⟨tx', List.mem_cons_of_mem _ hmem, hk', hv'⟩
+        · intro hall
+          exact h4 (fun tx' hmem => hall tx' (List.mem_cons_of_mem _ hmem))
+
+/-- a successful `applyBatch` loaded the relevant coins and its DOSC speed is the result of the speed fold -/
+theorem applyBatch_speed {env : Env} {s s' : State} {txs : List Tx} {fb : Header}
+    (h : applyBatch env s txs fb = .ok s') :
+    ∃ rel, loadRelevantCoins s txs = .ok rel ∧
+      Outcome.foldlM' (speedStep env s rel) s.doscSpeed txs = .ok s'.doscSpeed := by
+  unfold applyBatch at h
+  obtain ⟨rel, hrel, h⟩ := bind_ok_inv h
+  obtain ⟨ns, _, h⟩ := bind_ok_inv h
+  simp only at h
+  obtain ⟨_, _, h⟩ := bind_ok_inv h
+  obtain ⟨newSpeed, hsp, h⟩ := bind_ok_inv h
+  obtain ⟨next, _, h⟩ := bind_ok_inv h
+  injection h with h
+  subst h
+  exact ⟨rel, hrel, hsp⟩
+
+/-- `forM'` success means every element passed -/
+theorem forM'_ok {α} {f : α → Outcome Unit} :
+    ∀ {l : List α}, Outcome.forM' f l = .ok () → ∀ a ∈ l, f a = .ok () := by
+  intro l
+  induction l with
+  | nil => intro _ a ha; cases ha
+  | cons x xs ih =>
+    intro h a ha
+    simp only [Outcome.forM'] at h
+    cases hx : f x with
+    | reject e => rw [hx] at h; cases h
+    | crash c => rw [hx] at h; cases h
+    | ok u =>
+      rw [hx] at h
+      simp only at h
+      rcases List.mem_cons.mp ha with rfl | ha
+      · exact hx
+      · exact ih h a ha
+
+end Mint
 end Mel
